@@ -148,7 +148,10 @@ def run(prop, seed, tier):
         files = {'Color': 'enum Color { Color_Red = 1, Color_Blue = 2 };\n',
                  'Point': 'struct Point { u16 x; u16 y; };\n',
                  'Shape': '#include "Color.prophy"\n#include "Point.prophy"\nstruct Shape { Color c; Point p<2>; };\n',
-                 'Scene': '#include "Shape.prophy"\n#include "Point.prophy"\n#include "Color.prophy"\nstruct Scene { Shape s; Color c; Point o; };\n'}
+                 'Scene': '#include "Shape.prophy"\n#include "Point.prophy"\n#include "Color.prophy"\nstruct Scene { Shape s; Color c; Point o; };\n',
+                 # the leaves first, then the file that includes them again; and the same file listed twice
+                 'Stage': '#include "Color.prophy"\n#include "Point.prophy"\n#include "Shape.prophy"\nstruct Stage { Shape s; Color c; Point o; };\n',
+                 'Twice': '#include "Point.prophy"\n#include "Color.prophy"\n#include "Point.prophy"\nstruct Twice { Color c; Point o; };\n'}
         for nm, text in files.items():
             open(os.path.join(d, nm + '.prophy'), 'w').write(text)
         out = os.path.join(d, 'out')
@@ -165,6 +168,9 @@ def run(prop, seed, tier):
                 m = lib.import_generated(out, 'Scene')
                 if (m.Scene._SIZE, m.Shape._SIZE) != (24, 16):
                     fail('module:stems', repr(files), 'Scene/Shape sizes %r, documented (24, 16)' % ((m.Scene._SIZE, m.Shape._SIZE),))
+                m2, m3 = lib.import_generated(out, 'Stage'), lib.import_generated(out, 'Twice')
+                if (m2.Stage._SIZE, m3.Twice._SIZE) != (24, 8):
+                    fail('module:stems', repr(files), 'Stage/Twice sizes %r, documented (24, 8)' % ((m2.Stage._SIZE, m3.Twice._SIZE),))
             except Exception as ex:
                 fail('import:stems', repr(files), 'files named after their definitions: the generated modules do not import: %r' % ex)
         # error cases
